@@ -71,7 +71,7 @@ type vfC25Step struct {
 	Users   int  // revoke: 0 everybody, 1 only the conn's user, 2 everybody but the conn's user
 	Adv     int  // 0: 100ms 1: 600ms 2: one interval 3: three intervals
 	N       int
-	GateB   bool // track: park inside the broker subscribe of trackKeys (PublishEnabled, new key): entry exists, hub not joined
+	GateB   bool // track: park in the command-processed callback, i.e. after trackKeys + reply and before the keyed hub is joined
 	Trig    int // armPoll: 0 nothing, 1 notify Key right away, 2 advance one interval right away
 }
 
@@ -130,7 +130,7 @@ func (s vfC25Step) String() string {
 			r += " parked"
 		}
 		if s.GateB {
-			r += " parked-in-broker-subscribe"
+			r += " parked-before-hub-join"
 		}
 		return r + ")"
 	case vfC25Untrack:
@@ -379,6 +379,7 @@ type vfC25Backend struct {
 	pollEpoch []string // epoch of every successfully answered poll, in answer order
 	afterRead bool
 	seqFn     func() int64
+	remLog    []vfC25Upd // poll answers that reported a key as removed
 	updLog    []vfC25Upd // every poll answer / publish delivery that carried a key, with the world sequence number
 }
 
@@ -504,6 +505,10 @@ func (b *vfC25Backend) poll(gates *vfGates, ev SharedPollEvent) (SharedPollResul
 	b.pollsOK++
 	b.pollEpoch = append(b.pollEpoch, ep)
 	for _, it := range res.Items {
+		if it.Removed {
+			b.remLog = append(b.remLog, vfC25Upd{seq: b.seqFn(), key: it.Key, what: "poll removal"})
+			continue
+		}
 		b.updLog = append(b.updLog, vfC25Upd{seq: b.seqFn(), key: it.Key, what: fmt.Sprintf("poll answer v%d", it.Version)})
 	}
 	b.mu.Unlock()
@@ -537,6 +542,7 @@ type vfC25KeyState struct {
 	ver     uint64 // version of the payload the client holds (kept after untrack: the client's cache)
 	data    []byte
 	hasData bool
+	removedAt int  // frame index of the removal push that untracked the key (0 = not untracked by a removal)
 	garbage bool   // a known-finding delta did not apply: payload unknown until the next full push
 	cacheEp string // epoch of the subscription under which (ver, data) was received
 	updates int
@@ -565,6 +571,7 @@ type vfC25ConnState struct {
 	unsub2500  int
 	retrackDup int
 	trackErr   int
+	trackAfterEnd int
 	pendingWin int
 	known      []string
 	knownEx    map[string]string
@@ -595,7 +602,15 @@ func vfC25RenderFrames(fs []vfFrame) string {
 	return strings.Join(parts, " | ")
 }
 
+type vfC25RemWin struct {
+	key         string
+	start, done int64 // world sequence numbers; done 0 = still in progress
+	what        string
+}
+
 type vfC25Oracle struct {
+	epochChanges []int64 // world sequence numbers of publisher epoch changes
+	removals []vfC25RemWin
 	cs       *vfC25Case
 	be       *vfC25Backend
 	isKnown  func(string) bool
@@ -637,6 +652,7 @@ func (o *vfC25Oracle) run(frames []vfFrame) (*vfC25ConnState, string) {
 		st.keys[k] = &vfC25KeyState{}
 	}
 	replied := map[uint32]bool{}
+	replyFrame := map[uint32]int{}
 	mi := 0
 	endSub := func(seq int64, code uint32) {
 		st.subscribed = false
@@ -666,6 +682,7 @@ func (o *vfC25Oracle) run(frames []vfFrame) (*vfC25ConnState, string) {
 		}
 		return false
 	}
+	curSeq := int64(0)
 	applyUpdate := func(i int, p *protocol.Publication, where string, baseline uint64) string {
 		ks := st.keys[p.Key]
 		if p.Version <= baseline {
@@ -693,7 +710,21 @@ func (o *vfC25Oracle) run(frames []vfFrame) (*vfC25ConnState, string) {
 					key := "C25:poll-prevdata-delta-base-is-not-the-payload-clients-hold-after-racing-publish"
 					msg := fmt.Sprintf("frame %d (%s): delta for key %s v%d does not apply to the payload the connection holds (v%d %s): apply error=%v result=%s",
 						i, where, p.Key, p.Version, ks.ver, vfTrunc(string(ks.data), 60), aerr, vfTrunc(string(res), 60))
-					if !(o.cs.SendPrev && !o.cs.Keep && o.cs.Versioned) {
+					// a subscription that outlived a publisher epoch change (known finding) holds payloads of the old epoch
+					stale := false
+					if n := len(st.subs); n > 0 && o.cs.EpochMode == 1 {
+						o.be.mu.Lock()
+						cur := o.be.epoch
+						o.be.mu.Unlock()
+						stale = st.subs[n-1].epoch != cur
+						for _, ch := range o.epochChanges {
+							stale = stale || (st.subs[n-1].startSeq < ch && ch < curSeq)
+						}
+					}
+					if stale {
+						key = "C25:epoch-change-does-not-end-subscriptions-without-a-tracked-key"
+						msg += " (the subscription outlived a publisher epoch change: the base it holds is an old-epoch payload)"
+					} else if !(o.cs.SendPrev && !o.cs.Keep && o.cs.Versioned) {
 						return msg
 					}
 					if !o.isKnown(key) {
@@ -738,12 +769,14 @@ func (o *vfC25Oracle) run(frames []vfFrame) (*vfC25ConnState, string) {
 			return st, fmt.Sprintf("frame %d undecodable: %v", i, f.Err)
 		}
 		r := f.Reply
+		curSeq = f.Seq
 		if r.Id != 0 {
 			a := o.attempts[r.Id]
 			if a == nil {
 				continue
 			}
 			replied[r.Id] = true
+			replyFrame[r.Id] = i
 			switch a.kind {
 			case vfC25Sub:
 				st.subPending = false
@@ -774,7 +807,10 @@ func (o *vfC25Oracle) run(frames []vfFrame) (*vfC25ConnState, string) {
 					continue
 				}
 				if !st.subscribed {
-					return st, fmt.Sprintf("frame %d: track #%d succeeded although the subscription had ended", i, a.id)
+					// the commit ran just before a server-side unsubscribe, the reply was queued after the unsubscribe push:
+					// nothing is tracked (any later push for these keys is still flagged)
+					st.trackAfterEnd++
+					continue
 				}
 				for _, k := range a.order {
 					ks := st.keys[k]
@@ -792,6 +828,7 @@ func (o *vfC25Oracle) run(frames []vfFrame) (*vfC25ConnState, string) {
 						}
 					}
 					ks.tracked = true
+					ks.removedAt = 0
 					ks.base = c
 				}
 				for _, p := range r.SubRefresh.Items {
@@ -822,6 +859,9 @@ func (o *vfC25Oracle) run(frames []vfFrame) (*vfC25ConnState, string) {
 		case p.Pub != nil && p.Pub.Removed:
 			st.removals++
 			if ks := st.keys[p.Pub.Key]; ks != nil {
+				if ks.tracked {
+					ks.removedAt = i
+				}
 				ks.tracked = false
 				ks.run = 0
 			}
@@ -835,7 +875,35 @@ func (o *vfC25Oracle) run(frames []vfFrame) (*vfC25ConnState, string) {
 				return st, fmt.Sprintf("frame %d: key %s v%d pushed after the subscription ended", i, p.Pub.Key, p.Pub.Version)
 			}
 			if !ks.tracked && !pend {
-				return st, fmt.Sprintf("frame %d: key %s v%d pushed although the connection does not track the key (untracked / revoked / never tracked)", i, p.Pub.Key, p.Pub.Version)
+				msg := fmt.Sprintf("frame %d: key %s v%d pushed although the connection does not track the key (untracked / revoked / never tracked)", i, p.Pub.Key, p.Pub.Version)
+				// Root cause classification: the key was untracked by a removal push (frame removedAt) that belongs to a
+				// server-side removal which was in progress while this connection (re-)tracked the key: the removal deleted the
+				// per-connection state first, the track re-created it, and the removal push reached the wire after the track reply.
+				late := ""
+				if ks.removedAt > 0 {
+					for _, a := range o.attempts {
+						rf, ok := replyFrame[a.id]
+						if _, has := a.claims[p.Pub.Key]; !has || a.kind != vfC25Track || !ok || rf > ks.removedAt {
+							continue
+						}
+						for _, r := range o.removals {
+							if r.key == p.Pub.Key && (a.doneSeq == 0 || r.start <= a.doneSeq) && (r.done == 0 || r.done >= a.sentSeq) {
+								late = r.what
+							}
+						}
+					}
+				}
+				if late == "" {
+					return st, msg
+				}
+				key := "C25:removal-wipes-hub-entries-of-connections-that-tracked-the-key-after-the-removal-broadcast"
+				msg += fmt.Sprintf(" (the removal push at frame %d belongs to a %s that was in progress while this connection tracked the key again)", ks.removedAt, late)
+				if !o.isKnown(key) {
+					return st, "[" + key + "] " + msg
+				}
+				st.known = append(st.known, key)
+				st.knownEx[key] = msg
+				ks.tracked, ks.removedAt = true, 0
 			}
 			baseline := ks.base
 			if pend {
@@ -930,6 +998,16 @@ func vfC25Run(t *testing.T, cs vfC25Case, out *vfC25Out, isKnown func(string) bo
 			pw.node.OnSharedPoll(func(ctx context.Context, ev SharedPollEvent) (SharedPollResult, error) {
 				return be.poll(pw.Gates, ev)
 			})
+			// Public hook that handleTrack invokes right after queueing the track reply: the keys are registered in the
+			// SharedPollManager (Step 1) but the connection has not joined the keyed hub yet (Step 5). No lock is held.
+			pw.node.OnCommandProcessed(func(c *Client, e CommandProcessedEvent) {
+				if e.Command == nil || e.Command.SubRefresh == nil || e.Command.SubRefresh.Type != typeTrack || e.Error != nil || e.Reply == nil || e.Reply.Error != nil {
+					return
+				}
+				if vc := pw.connByID(c.ID()); vc != nil {
+					pw.Gates.Pass("trackwin:" + vc.Name)
+				}
+			})
 		})
 		if err != nil {
 			return "infra: " + err.Error()
@@ -937,21 +1015,23 @@ func vfC25Run(t *testing.T, cs vfC25Case, out *vfC25Out, isKnown func(string) bo
 		defer w.Close()
 		gates = w.Gates
 		be.seqFn = func() int64 { return w.seq.Load() }
-		w.broker.Hook = func(op, phase, ch string) error {
-			if op == "subscribe" && phase == "before" {
-				w.Gates.Pass("brokersub")
-			}
-			return nil
-		}
 		w.ChanOpts = func(c *vfConn, e SubscribeEvent) (SubscribeReply, error) {
 			return SubscribeReply{Options: SubscribeOptions{AllowedDeltaTypes: []DeltaType{DeltaTypeFossil}}, ClientSideRefresh: true}, nil
 		}
+		var busyMu sync.Mutex
+		trackBusy := map[string]int{} // connection name → track callbacks that have not returned yet
 		w.PerClient = func(c *vfConn, client *Client) {
 			name := c.Name
 			client.OnTrack(func(e TrackEvent, cb TrackCallback) {
+				busyMu.Lock()
+				trackBusy[name]++
+				busyMu.Unlock()
 				go func() {
 					w.Gates.Pass("track:" + name)
-					cb(TrackReply{}, nil)
+					cb(TrackReply{}, nil) // returns when handleTrack's callback (steps 1-8) has completed
+					busyMu.Lock()
+					trackBusy[name]--
+					busyMu.Unlock()
 				}()
 			})
 		}
@@ -978,8 +1058,11 @@ func vfC25Run(t *testing.T, cs vfC25Case, out *vfC25Out, isKnown func(string) bo
 			conns[i] = &connRT{c: c, attempts: map[uint32]*vfC25Attempt{}}
 		}
 		vfSettle()
+		var removalWins func() []vfC25RemWin
+		var epochChangeSeqs []int64
+		var epochChangeTo []string
 		oracleFor := func(cr *connRT) *vfC25Oracle {
-			return &vfC25Oracle{cs: &cs, be: be, isKnown: isKnown, proto: cr.c.T.proto, attempts: cr.attempts, markers: cr.markers}
+			return &vfC25Oracle{epochChanges: epochChangeSeqs, removals: removalWins(), cs: &cs, be: be, isKnown: isKnown, proto: cr.c.T.proto, attempts: cr.attempts, markers: cr.markers}
 		}
 		// mark completion of inline untracks: once the track reply is on the wire and the bubble is quiescent, Step 8 has run
 		markInline := func() {
@@ -992,9 +1075,12 @@ func vfC25Run(t *testing.T, cs vfC25Case, out *vfC25Out, isKnown func(string) bo
 					continue
 				}
 				frames := cr.c.Frames()
+				busyMu.Lock()
+				inWin := trackBusy[cr.c.Name] > 0 // the reply may be out but the track callback has not finished
+				busyMu.Unlock()
 				for fi, f := range frames {
 					if f.Reply != nil && f.Reply.Id != 0 {
-						if a := cr.attempts[f.Reply.Id]; a != nil && a.doneSeq == 0 {
+						if a := cr.attempts[f.Reply.Id]; a != nil && a.doneSeq == 0 && !(inWin && a.kind == vfC25Track) {
 							a.doneSeq, a.replyAt = w.seq.Load(), fi
 						}
 					}
@@ -1007,7 +1093,7 @@ func vfC25Run(t *testing.T, cs vfC25Case, out *vfC25Out, isKnown func(string) bo
 				}
 				var rest []*vfC25Attempt
 				for _, a := range cr.inlineQ {
-					if have[a.id] {
+					if have[a.id] && !inWin {
 						cr.markers = append(cr.markers, vfC25Marker{at: len(frames), keys: a.inline})
 					} else {
 						rest = append(rest, a)
@@ -1045,8 +1131,6 @@ func vfC25Run(t *testing.T, cs vfC25Case, out *vfC25Out, isKnown func(string) bo
 			}
 			return false
 		}
-		var epochChangeSeqs []int64
-		var epochChangeTo []string
 		changeEpoch := func() {
 			be.changeEpoch()
 			epochChangeSeqs = append(epochChangeSeqs, w.seq.Load())
@@ -1065,7 +1149,44 @@ func vfC25Run(t *testing.T, cs vfC25Case, out *vfC25Out, isKnown func(string) bo
 		var flips []flipRec
 		prevEpoch, prevSeq := "", int64(0)
 		prevMembers := map[string]bool{}
+		// server-side removals (revoke calls, poll answers with Removed) with the span during which they were in progress
+		type removalRec struct {
+			keys     []string
+			startSeq int64
+			doneSeq  int64 // 0 = still in progress
+			finished *bool // revoke goroutine returned (nil for poll removals)
+			what     string
+		}
+		var removals []*removalRec
+		removalWins = func() []vfC25RemWin {
+			var out []vfC25RemWin
+			for _, r := range removals {
+				for _, k := range r.keys {
+					out = append(out, vfC25RemWin{key: k, start: r.startSeq, done: r.doneSeq, what: r.what})
+				}
+			}
+			be.mu.Lock()
+			for _, r := range be.remLog {
+				out = append(out, vfC25RemWin{key: r.key, start: r.seq, what: r.what})
+			}
+			be.mu.Unlock()
+			return out
+		}
 		snap := func() {
+			be.mu.Lock()
+			for _, r := range be.remLog {
+				removals = append(removals, &removalRec{keys: []string{r.key}, startSeq: r.seq, what: r.what})
+			}
+			be.remLog = nil
+			be.mu.Unlock()
+			for _, r := range removals {
+				if r.doneSeq != 0 {
+					continue
+				}
+				if (r.finished != nil && *r.finished) || (r.finished == nil && w.Gates.Waiting("bcast") == 0) {
+					r.doneSeq = w.seq.Load()
+				}
+			}
 			m := w.node.sharedPollManager
 			m.mu.RLock()
 			s := m.channels[vfC25Chan]
@@ -1078,16 +1199,25 @@ func vfC25Run(t *testing.T, cs vfC25Case, out *vfC25Out, isKnown func(string) bo
 			} else if cs.Versioned {
 				cur = ""
 			}
-			if cs.Versioned && cur != prevEpoch && s != nil && cur != "" {
-				flips = append(flips, flipRec{seq: prevSeq, members: prevMembers, from: prevEpoch, to: cur})
-			}
-			prevEpoch, prevSeq = cur, w.seq.Load()
-			prevMembers = map[string]bool{}
+			curMembers := map[string]bool{}
 			if hub := w.node.keyedManager.getHub(vfC25Chan); hub != nil {
 				for _, c := range hub.collectAllClients() {
-					prevMembers[c.uid] = true
+					curMembers[c.uid] = true
 				}
 			}
+			if cs.Versioned && cur != prevEpoch && s != nil && cur != "" {
+				// A flip unsubscribes everybody it finds in the hub, which also removes them from the hub. Somebody who was in
+				// the hub before and still is afterwards (no command of its own ran in between) was skipped by the flip.
+				both := map[string]bool{}
+				for uid := range prevMembers {
+					if curMembers[uid] {
+						both[uid] = true
+					}
+				}
+				flips = append(flips, flipRec{seq: prevSeq, members: both, from: prevEpoch, to: cur})
+			}
+			prevEpoch, prevSeq = cur, w.seq.Load()
+			prevMembers = curMembers
 		}
 		releaseHeld := func(i int) {
 			w.broker.mu.Lock()
@@ -1103,23 +1233,24 @@ func vfC25Run(t *testing.T, cs vfC25Case, out *vfC25Out, isKnown func(string) bo
 			go w.broker.ReleaseHeld(i)
 			vfSettle()
 		}
-		brokerParked := func() bool { return w.Gates.Waiting("brokersub") > 0 }
+		winParked := func() bool {
+			for _, g := range w.Gates.AnyWaiting() {
+				if strings.HasPrefix(g, "trackwin:") {
+					return true
+				}
+			}
+			return false
+		}
+		trackInFlight := func(name string) bool {
+			busyMu.Lock()
+			defer busyMu.Unlock()
+			return trackBusy[name] > 0
+		}
 		bcastParked := func() bool { return w.Gates.Waiting("bcast") > 0 }
 
 		for si, s := range cs.Steps {
 			if bcastParked() && cs.PubEnabled && s.Kind == vfC25Publish {
 				continue // a broadcast parked below the memory broker holds its per-channel publish lock (a mutex)
-			}
-			if brokerParked() {
-				// the parked goroutine holds the node's per-channel subscribe lock (a mutex): nothing that needs the lock may run now
-				switch s.Kind {
-				case vfC25Track, vfC25Untrack, vfC25Unsub, vfC25Close, vfC25Revoke, vfC25Epoch, vfC25Adv:
-					continue // (no time advance either: dissolver jobs queued earlier take the same lock when their delay elapses)
-				case vfC25Publish:
-					if s.NewEp || s.EmptyEp {
-						continue
-					}
-				}
 			}
 			if dbg {
 				fmt.Fprintf(os.Stderr, "DBG step %d %s waiting=%v held=%d\n", si, s, w.Gates.AnyWaiting(), w.broker.NumHeld())
@@ -1162,7 +1293,7 @@ func vfC25Run(t *testing.T, cs vfC25Case, out *vfC25Out, isKnown func(string) bo
 				}
 				send(cr, &vfC25Attempt{kind: vfC25Sub}, &protocol.Command{Subscribe: req})
 			case vfC25Track:
-				if !st.subscribed || w.Gates.Waiting("track:"+cr.c.Name) > 0 {
+				if !st.subscribed || trackInFlight(cr.c.Name) {
 					continue
 				}
 				if st.subEpoch == "" && cs.EpochMode == 1 {
@@ -1202,9 +1333,8 @@ func vfC25Run(t *testing.T, cs vfC25Case, out *vfC25Out, isKnown func(string) bo
 				if s.Gate {
 					w.Gates.Arm("track:"+cr.c.Name, 1)
 				}
-				useB := s.GateB && cs.PubEnabled && cs.EpochMode == 0
-				if useB {
-					w.Gates.Arm("brokersub", 1)
+				if s.GateB {
+					w.Gates.Arm("trackwin:"+cr.c.Name, 1)
 				}
 				raced("track")
 				if len(a.inline) > 0 {
@@ -1214,14 +1344,14 @@ func vfC25Run(t *testing.T, cs vfC25Case, out *vfC25Out, isKnown func(string) bo
 				if s.Gate && w.Gates.Waiting("track:"+cr.c.Name) > 0 {
 					out.label("track_parked_in_OnTrack")
 				}
-				if useB {
-					w.Gates.Disarm("brokersub")
-					if brokerParked() {
-						out.label("track_parked_between_entry_creation_and_hub_join")
+				if s.GateB {
+					w.Gates.Disarm("trackwin:" + cr.c.Name)
+					if w.Gates.Waiting("trackwin:"+cr.c.Name) > 0 {
+						out.label("track_parked_between_trackKeys_and_hub_join")
 					}
 				}
 			case vfC25Untrack:
-				if !st.subscribed || w.Gates.Waiting("track:"+cr.c.Name) > 0 {
+				if !st.subscribed || trackInFlight(cr.c.Name) {
 					continue // no conflicting commands for a key while a track of this connection is in flight
 				}
 				a := &vfC25Attempt{kind: vfC25Untrack}
@@ -1235,7 +1365,7 @@ func vfC25Run(t *testing.T, cs vfC25Case, out *vfC25Out, isKnown func(string) bo
 					continue
 				}
 				raced("unsubscribe")
-				if w.Gates.Waiting("track:"+cr.c.Name) > 0 {
+				if trackInFlight(cr.c.Name) {
 					out.label("unsubscribe_while_track_parked")
 				}
 				send(cr, &vfC25Attempt{kind: vfC25Unsub}, &protocol.Command{Unsubscribe: &protocol.UnsubscribeRequest{Channel: vfC25Chan}})
@@ -1324,8 +1454,8 @@ func vfC25Run(t *testing.T, cs vfC25Case, out *vfC25Out, isKnown func(string) bo
 					be.mu.Lock()
 					be.updLog = append(be.updLog, vfC25Upd{seq: w.seq.Load(), key: k, what: fmt.Sprintf("publish v%d", v)})
 					be.mu.Unlock()
-					if brokerParked() {
-						out.label("publish_between_entry_creation_and_hub_join")
+					if winParked() {
+						out.label("publish_between_trackKeys_and_hub_join")
 					}
 				}
 				if s.Fault == 1 {
@@ -1350,7 +1480,12 @@ func vfC25Run(t *testing.T, cs vfC25Case, out *vfC25Out, isKnown func(string) bo
 					excl = []string{conns[s.Conn].c.User}
 				}
 				raced("revoke")
-				go w.node.sharedPollManager.SharedPollRevokeKeys(vfC25Chan, keys, users, excl)
+				fin := new(bool)
+				removals = append(removals, &removalRec{keys: keys, startSeq: w.seq.Load(), finished: fin, what: "revoke"})
+				go func() {
+					w.node.sharedPollManager.SharedPollRevokeKeys(vfC25Chan, keys, users, excl)
+					*fin = true
+				}()
 			case vfC25Adv:
 				d := []time.Duration{100 * time.Millisecond, 600 * time.Millisecond, interval, 3 * interval}[s.Adv]
 				time.Sleep(d)
@@ -1367,9 +1502,7 @@ func vfC25Run(t *testing.T, cs vfC25Case, out *vfC25Out, isKnown func(string) bo
 				case 1:
 					w.node.SharedPollNotify([]SharedPollNotificationItem{{Channel: vfC25Chan, Key: vfC25Keys[s.Key]}})
 				case 2:
-					if !brokerParked() {
-						time.Sleep(interval)
-					}
+					time.Sleep(interval)
 				}
 				vfSettle()
 				if pollInFlight() {
@@ -1377,23 +1510,10 @@ func vfC25Run(t *testing.T, cs vfC25Case, out *vfC25Out, isKnown func(string) bo
 				}
 			case vfC25Release:
 				cands := w.Gates.AnyWaiting()
-				if brokerParked() {
-					// a track released now would block on the subscribe lock (a mutex) held by the parked one
-					var keep []string
-					for _, g := range cands {
-						if !strings.HasPrefix(g, "track:") {
-							keep = append(keep, g)
-						}
-					}
-					cands = keep
-				}
 				if w.broker.NumHeld() > 0 && !bcastParked() {
 					cands = append(cands, "held")
 				}
 				if len(cands) == 0 {
-					if brokerParked() {
-						continue
-					}
 					time.Sleep(600 * time.Millisecond)
 					vfSettle()
 					markInline()
@@ -1413,12 +1533,12 @@ func vfC25Run(t *testing.T, cs vfC25Case, out *vfC25Out, isKnown func(string) bo
 					if g == "poll" && anyTrackParked() {
 						out.label("poll_answered_while_track_parked")
 					}
-					if (strings.HasPrefix(g, "track:") || g == "brokersub") && pollInFlight() {
+					if strings.HasPrefix(g, "track") && pollInFlight() {
 						races++
 						out.label("track_completed_while_poll_in_flight")
 					}
-					if g == "poll" && brokerParked() {
-						out.label("poll_answered_between_entry_creation_and_hub_join")
+					if g == "poll" && winParked() {
+						out.label("poll_answered_between_trackKeys_and_hub_join")
 					}
 					w.Gates.Release(g)
 				}
@@ -1449,14 +1569,11 @@ func vfC25Run(t *testing.T, cs vfC25Case, out *vfC25Out, isKnown func(string) bo
 		for w.Gates.Release("bcast") {
 		}
 		vfSettle()
+		markInline()
+		snap()
 		for w.Gates.Release("poll") {
 		}
 		w.Gates.Disarm("poll")
-		vfSettle()
-		markInline()
-		snap()
-		for w.Gates.Release("brokersub") {
-		}
 		vfSettle()
 		markInline()
 		snap()
@@ -1538,6 +1655,9 @@ func vfC25Run(t *testing.T, cs vfC25Case, out *vfC25Out, isKnown func(string) bo
 			}
 			if st.trackErr > 0 {
 				out.label("track_error_reply")
+			}
+			if st.trackAfterEnd > 0 {
+				out.label("track_reply_after_server_side_unsubscribe")
 			}
 			if st.pendingWin > 0 {
 				out.label("push_inside_pending_track_window")
@@ -1624,7 +1744,8 @@ func vfC25Run(t *testing.T, cs vfC25Case, out *vfC25Out, isKnown func(string) bo
 				if msg == "" {
 					continue
 				}
-				msg += " (≥3 refresh intervals after the last change, backend healthy); server: " + vfC25Diag(w, cr.c.Client, k)
+				diag, inHub, connTracked, hasEntry := vfC25Diag(w, cr.c.Client, k)
+				msg += " (≥3 refresh intervals after the last change, backend healthy); server: " + diag
 				// root cause classification: an update for the key was supplied while this connection's last track of the key was
 				// between its start and its completion (entry registered in the manager, connection not yet in the keyed hub)
 				var last *vfC25Attempt
@@ -1641,7 +1762,26 @@ func vfC25Run(t *testing.T, cs vfC25Case, out *vfC25Out, isKnown func(string) bo
 						}
 					}
 				}
-				msg += fmt.Sprintf("; update inside the last track's window: %q; frames: %s", inWindow, vfC25RenderFrames(frames))
+				overlap := ""
+				if last != nil && connTracked && (!inHub || !hasEntry) {
+					for _, r := range removals {
+						has := false
+						for _, rk := range r.keys {
+							has = has || rk == k
+						}
+						if has && r.startSeq <= last.doneSeq && (r.doneSeq == 0 || r.doneSeq >= last.sentSeq) {
+							overlap = r.what
+						}
+					}
+				}
+				msg += fmt.Sprintf("; update inside the last track's window: %q; server-side removal overlapping the last track: %q; frames: %s", inWindow, overlap, vfC25RenderFrames(frames))
+				if overlap != "" {
+					key := "C25:removal-wipes-hub-entries-of-connections-that-tracked-the-key-after-the-removal-broadcast"
+					if known(key, msg) {
+						continue
+					}
+					return "[" + key + "] " + msg
+				}
 				if inWindow != "" {
 					key := "C25:update-between-trackKeys-and-hub-join-is-never-delivered-to-the-tracking-connection"
 					if known(key, msg) {
@@ -1672,7 +1812,7 @@ func vfC25Run(t *testing.T, cs vfC25Case, out *vfC25Out, isKnown func(string) bo
 }
 
 // vfC25Diag renders the server-side state for (connection, key); used in failure messages only.
-func vfC25Diag(w *vfWorld, c *Client, key string) string {
+func vfC25Diag(w *vfWorld, c *Client, key string) (text string, inHub bool, connTracked bool, hasEntry bool) {
 	var sb strings.Builder
 	m := w.node.sharedPollManager
 	m.mu.RLock()
@@ -1683,6 +1823,7 @@ func vfC25Diag(w *vfWorld, c *Client, key string) string {
 	} else {
 		s.mu.Lock()
 		if e := s.itemIndex[key]; e != nil {
+			hasEntry = true
 			fmt.Fprintf(&sb, "entry{version=%d needsBroadcast=%v freshFromPublish=%v pendingHubJoin=%d} epoch=%q", e.version, e.needsBroadcast, e.freshFromPublish, e.pendingHubJoin, s.epoch)
 		} else {
 			fmt.Fprintf(&sb, "no entry (keys=%d) epoch=%q", len(s.itemIndex), s.epoch)
@@ -1691,19 +1832,21 @@ func vfC25Diag(w *vfWorld, c *Client, key string) string {
 		s.mu.Unlock()
 	}
 	if hub := w.node.keyedManager.getHub(vfC25Chan); hub != nil {
-		fmt.Fprintf(&sb, " inHub=%v", hub.hasSubscriber(key, c))
+		inHub = hub.hasSubscriber(key, c)
+		fmt.Fprintf(&sb, " inHub=%v", inHub)
 	} else {
 		sb.WriteString(" no hub")
 	}
 	c.mu.RLock()
 	if c.keyed != nil && c.keyed.trackedKeys[vfC25Chan] != nil && c.keyed.trackedKeys[vfC25Chan][key] != nil {
 		ks := c.keyed.trackedKeys[vfC25Chan][key]
+		connTracked = true
 		fmt.Fprintf(&sb, " conn{version=%d deltaReady=%v}", ks.version, ks.deltaReady)
 	} else {
 		sb.WriteString(" conn{key not tracked}")
 	}
 	c.mu.RUnlock()
-	return sb.String()
+	return sb.String(), inHub, connTracked, hasEntry
 }
 
 func vfC25Replied(frames []vfFrame, id uint32) bool {
@@ -1732,6 +1875,9 @@ func TestVF_C25(t *testing.T) {
 	vfCheck(t, "C25", func(rt *rapid.T, c *vfCase) string {
 		cs := vfC25Gen(rt)
 		c.Describe(cs.String())
+		if os.Getenv("VF_DEBUG") != "" {
+			fmt.Fprintf(os.Stderr, "DBG case %s\n", cs.String())
+		}
 		out := &vfC25Out{knownEx: map[string]string{}}
 		msg := vfC25Run(t, cs, out, c.IsKnown)
 		seen := map[string]bool{}
